@@ -1,10 +1,11 @@
 /-
   C09 — `Categorical::new` (src/distribution/categorical.rs:84), against the hand transcription
-  `Statrs.Model.Categorical.new` in Statrs/Draft/C09/CategoricalModel.lean.
+  `Statrs.Model.Categorical.new` in Statrs/Model/CategoricalModel.lean.
 
-  !! Every theorem here is `rel(hand transcription)`: `Categorical::new` is NOT in the generated
-  model (untranslated: `.iter_mut`) and the transcription is not yet pinned by the correspondence
-  check.  Within that proviso the statements are full:
+  `Categorical::new` is NOT in the generated model (untranslated: `.iter_mut`); the transcription
+  is pinned to the code by the `categorical` correspondence suite (Model/CatDispatch.lean: the hand
+  constructor followed by every generated method, ≈ 4.6·10⁴ requests per quick run, bit-exact).
+  Theorems are tagged `rel(hand transcription)` for that reason; within it the statements are full:
 
     * `categorical_new_cases`     — complete decision list, in the order the code checks;    (∀α)
     * `categorical_new_ok_iff`    — `Ok` exactly on the DOCUMENTED domain `Dom.Categorical.Domain`
@@ -21,8 +22,8 @@
                                     nor `< 0`); in IEEE arithmetic `norm_pmf` is then `[NaN, 0]`,
                                     so "normalised probabilities" fails for that `Ok` value.
 -/
-import Statrs.Draft.C09.CategoricalModel
-import Statrs.Draft.C09.VectorDomain
+import Statrs.Model.CategoricalModel
+import Statrs.Spec.VectorDomain
 import Statrs.Real.Simp
 import Statrs.Lemmas.Multivariate
 set_option linter.unusedSectionVars false
